@@ -122,6 +122,21 @@ class Flow:
         # the original node to find defs, but build a copy for output
         return _rebuild(expr, flow, keep, depth)
 
+    def reaches(self, expr, target, depth=0):
+        """Does `expr` contain the node `target`, directly or through names
+        whose unique reaching plain assignment contains it?"""
+        for n in ast.walk(expr):
+            if n is target:
+                return True
+        if depth > 8:
+            return False
+        for n in ast.walk(expr):
+            if isinstance(n, ast.Name) and isinstance(n.ctx, ast.Load):
+                v = self.def_value(n)
+                if v is not None and self.reaches(v, target, depth + 1):
+                    return True
+        return False
+
     def stmts_where(self, pred):
         return [
             st for n, st in self.cfg.stmt_of.items() if pred(st)
